@@ -785,7 +785,7 @@ theorem specCommaList_eq (s : List Char) :
 /-! ### the scanner, token by token -/
 
 /-- the model's scanner driven by the lexer's tokens instead of its own look-ahead -/
-def scanT : List Tok → ScanSt → Option (List BoF)
+def scanT : List LexTok → ScanSt → Option (List BoF)
   | [], st => scanEnd st
   | .lbrace2 :: t, st => scanT t { st with part := '{' :: '{' :: st.part }
   | .rbrace2 :: t, st => scanT t { st with part := '}' :: '}' :: st.part }
@@ -802,7 +802,7 @@ def scanT : List Tok → ScanSt → Option (List BoF)
     | none => none
     | some st' => scanT t st'
 
-theorem scanT_tokOfChar (w : Char) (t : List Tok) (st : ScanSt) :
+theorem scanT_tokOfChar (w : Char) (t : List LexTok) (st : ScanSt) :
     scanT (tokOfChar w :: t) st =
       match scanStep w st with
       | none => none
@@ -840,7 +840,7 @@ theorem scan_eq_scanT (cs : List Char) (st : ScanSt) : scan cs st = scanT (lex c
 /-! ### literal text: the four chained replacements = token-wise unescaping -/
 
 /-- a token that can occur in literal text: an escaped brace or a non-brace character -/
-def Spec.Tok.IsLit : Tok → Prop
+def Spec.LexTok.IsLit : LexTok → Prop
   | .lbrace2 => True
   | .rbrace2 => True
   | .chr c => c ≠ '{' ∧ c ≠ '}'
@@ -848,12 +848,12 @@ def Spec.Tok.IsLit : Tok → Prop
   | .rbrace => False
 
 /-- what the lexer produces: `chr` never carries a brace -/
-def Spec.Tok.Proper : Tok → Prop
+def Spec.LexTok.Proper : LexTok → Prop
   | .chr c => c ≠ '{' ∧ c ≠ '}'
   | _ => True
 
 /-- the characters a run of tokens was read from -/
-def rawOf (ts : List Tok) : List Char := ts.flatMap Tok.raw
+def rawOf (ts : List LexTok) : List Char := ts.flatMap LexTok.raw
 
 theorem tokOfChar_proper (c : Char) : (tokOfChar c).Proper := by
   unfold tokOfChar
@@ -918,12 +918,12 @@ theorem replace2_eq_substEscape (e r : Char) (l : List Char) :
   | case4 x y t h ih => simp only [substEscape, if_neg h, ih]
 
 /-- after the first replacement (`{{` → `{`) -/
-def Spec.Tok.raw1 : Tok → List Char
+def Spec.LexTok.raw1 : LexTok → List Char
   | .lbrace2 => ['{']
   | t => t.raw
 
-theorem replace_lbrace2 (ts : List Tok) (h : ∀ t ∈ ts, t.IsLit) :
-    replace2 '{' '{' '{' (rawOf ts) = ts.flatMap Tok.raw1 := by
+theorem replace_lbrace2 (ts : List LexTok) (h : ∀ t ∈ ts, t.IsLit) :
+    replace2 '{' '{' '{' (rawOf ts) = ts.flatMap LexTok.raw1 := by
   induction ts with
   | nil => rfl
   | cons t r ih =>
@@ -931,19 +931,19 @@ theorem replace_lbrace2 (ts : List Tok) (h : ∀ t ∈ ts, t.IsLit) :
     have ht := h t List.mem_cons_self
     simp only [rawOf, List.flatMap_cons] at ih' ⊢
     cases t with
-    | lbrace2 => simp only [Tok.raw, Tok.raw1, List.cons_append, List.nil_append, replace2, and_self,
+    | lbrace2 => simp only [LexTok.raw, LexTok.raw1, List.cons_append, List.nil_append, replace2, and_self,
         if_true, ih']
     | rbrace2 =>
-      simp only [Tok.raw, Tok.raw1, List.cons_append, List.nil_append]
+      simp only [LexTok.raw, LexTok.raw1, List.cons_append, List.nil_append]
       rw [replace2_cons_ne _ _ _ _ _ (by decide), replace2_cons_ne _ _ _ _ _ (by decide), ih']
     | chr c =>
-      simp only [Tok.raw, Tok.raw1, List.cons_append, List.nil_append]
+      simp only [LexTok.raw, LexTok.raw1, List.cons_append, List.nil_append]
       rw [replace2_cons_ne _ _ _ _ _ ht.1, ih']
     | lbrace => exact absurd ht id
     | rbrace => exact absurd ht id
 
-theorem replace_rbrace2 (ts : List Tok) (h : ∀ t ∈ ts, t.IsLit) :
-    replace2 '}' '}' '}' (ts.flatMap Tok.raw1) = ts.map Tok.literal := by
+theorem replace_rbrace2 (ts : List LexTok) (h : ∀ t ∈ ts, t.IsLit) :
+    replace2 '}' '}' '}' (ts.flatMap LexTok.raw1) = ts.map LexTok.literal := by
   induction ts with
   | nil => rfl
   | cons t r ih =>
@@ -952,13 +952,13 @@ theorem replace_rbrace2 (ts : List Tok) (h : ∀ t ∈ ts, t.IsLit) :
     simp only [List.flatMap_cons, List.map_cons]
     cases t with
     | lbrace2 =>
-      simp only [Tok.raw1, Tok.literal, List.cons_append, List.nil_append]
+      simp only [LexTok.raw1, LexTok.literal, List.cons_append, List.nil_append]
       rw [replace2_cons_ne _ _ _ _ _ (by decide), ih']
     | rbrace2 =>
-      simp only [Tok.raw, Tok.raw1, Tok.literal, List.cons_append, List.nil_append, replace2,
+      simp only [LexTok.raw, LexTok.raw1, LexTok.literal, List.cons_append, List.nil_append, replace2,
         and_self, if_true, ih']
     | chr c =>
-      simp only [Tok.raw, Tok.raw1, Tok.literal, List.cons_append, List.nil_append]
+      simp only [LexTok.raw, LexTok.raw1, LexTok.literal, List.cons_append, List.nil_append]
       rw [replace2_cons_ne _ _ _ _ _ ht.2, ih']
     | lbrace => exact absurd ht id
     | rbrace => exact absurd ht id
@@ -966,29 +966,29 @@ theorem replace_rbrace2 (ts : List Tok) (h : ∀ t ∈ ts, t.IsLit) :
 /-- **C18 (rendering).**  On literal text as the scanner collects it (escaped braces and
     non-brace characters: every brace run has even length) the four chained `str::replace`
     calls equal the token-wise unescaping of the specification. -/
-theorem sequentialReplace_eq_unescape (ts : List Tok) (h : ∀ t ∈ ts, t.IsLit) :
+theorem sequentialReplace_eq_unescape (ts : List LexTok) (h : ∀ t ∈ ts, t.IsLit) :
     unescapeFiller (rawOf ts) = unescapeLiteral ts := by
   unfold unescapeFiller unescapeLiteral
   rw [replace_lbrace2 ts h, replace_rbrace2 ts h, replace2_eq_substEscape, replace2_eq_substEscape]
 
 /-! ### the token-driven scanner against the token parser -/
 
-theorem rawOf_eq_nil (lit : List Tok) : rawOf lit = [] ↔ lit = [] := by
+theorem rawOf_eq_nil (lit : List LexTok) : rawOf lit = [] ↔ lit = [] := by
   cases lit with
   | nil => simp [rawOf]
-  | cons t r => cases t <;> simp [rawOf, Tok.raw]
+  | cons t r => cases t <;> simp [rawOf, LexTok.raw]
 
-theorem rawOf_append (a b : List Tok) : rawOf (a ++ b) = rawOf a ++ rawOf b := by
+theorem rawOf_append (a b : List LexTok) : rawOf (a ++ b) = rawOf a ++ rawOf b := by
   simp [rawOf]
 
-theorem isLit_append (lit : List Tok) (t : Tok) (hl : ∀ x ∈ lit, x.IsLit) (ht : t.IsLit) :
+theorem isLit_append (lit : List LexTok) (t : LexTok) (hl : ∀ x ∈ lit, x.IsLit) (ht : t.IsLit) :
     ∀ x ∈ lit ++ [t], x.IsLit := by
   intro x hx
   rcases List.mem_append.mp hx with hx | hx
   · exact hl x hx
   · simp only [List.mem_singleton] at hx; subst hx; exact ht
 
-theorem pushFiller_lit (lit : List Tok) (hl : ∀ t ∈ lit, t.IsLit) (ins : Bool) (acc : List BoF) :
+theorem pushFiller_lit (lit : List LexTok) (hl : ∀ t ∈ lit, t.IsLit) (ins : Bool) (acc : List BoF) :
     (ScanSt.pushFiller { inside := ins, part := (rawOf lit).reverse, bof := acc }).reverse =
       acc.reverse ++ fillerOf lit := by
   unfold ScanSt.pushFiller fillerOf
@@ -998,7 +998,7 @@ theorem pushFiller_lit (lit : List Tok) (hl : ∀ t ∈ lit, t.IsLit) (ins : Boo
     simp only [List.isEmpty_reverse, List.isEmpty_iff, hr, if_false, h, List.reverse_reverse,
       List.reverse_cons, sequentialReplace_eq_unescape lit hl]
 
-theorem scanT_sim (toks : List Tok) (hp : ∀ t ∈ toks, t.Proper) :
+theorem scanT_sim (toks : List LexTok) (hp : ∀ t ∈ toks, t.Proper) :
     (∀ lit acc, (∀ t ∈ lit, t.IsLit) →
       scanT toks { inside := false, part := (rawOf lit).reverse, bof := acc } =
         (parseOutside lit toks).map (acc.reverse ++ ·)) ∧
@@ -1124,5 +1124,156 @@ theorem accepted_iff_spec (s : List Char) :
     (boundsListOfString s).isOk = (specParse s).isSome := by
   rw [← parse_eq_spec]
   cases boundsListOfString s <;> rfl
+
+/-! ## 5. no two literal texts in a row -/
+
+/-- no two `.filler` are adjacent -/
+def NoAdj : List BoF → Prop
+  | [] => True
+  | .bound _ :: t => NoAdj t
+  | .filler _ :: t => (match t with | .filler _ :: _ => False | _ => True) ∧ NoAdj t
+
+theorem noAdj_bounds_append (bs : List UserBounds) (r : List BoF) (h : NoAdj r) :
+    NoAdj (bs.map BoF.bound ++ r) := by
+  induction bs with
+  | nil => exact h
+  | cons b t ih => exact ih
+
+theorem noAdj_fillerOf_bound (lit : List LexTok) (b : UserBounds) (t : List BoF)
+    (h : NoAdj (.bound b :: t)) : NoAdj (fillerOf lit ++ .bound b :: t) := by
+  unfold fillerOf
+  by_cases hl : lit = []
+  · rw [if_pos hl]; exact h
+  · rw [if_neg hl]; exact ⟨trivial, h⟩
+
+theorem noAdj_fillerOf (lit : List LexTok) : NoAdj (fillerOf lit) := by
+  unfold fillerOf
+  by_cases hl : lit = []
+  · rw [if_pos hl]; trivial
+  · rw [if_neg hl]; exact ⟨trivial, trivial⟩
+
+theorem allBounds_pieces_ne_nil (sep : Char) (s : List Char) (bs : List UserBounds)
+    (h : allBounds (pieces sep s) = Option.some bs) : bs ≠ [] := by
+  obtain ⟨p, r, hp⟩ := piecesFrom_cons sep [] s
+  unfold pieces at h
+  rw [hp] at h
+  simp only [allBounds] at h
+  cases hsb : specBound p with
+  | none => rw [hsb] at h; cases h
+  | some b =>
+    rw [hsb] at h
+    simp only [Option.map_eq_some_iff] at h
+    obtain ⟨t, _, rfl⟩ := h
+    exact List.cons_ne_nil _ _
+
+theorem specCommaList_shape (s : List Char) (l : List BoF) (h : specCommaList s = Option.some l) :
+    ∃ bs : List UserBounds, bs ≠ [] ∧ l = bs.map BoF.bound := by
+  unfold specCommaList at h
+  simp only [Option.map_eq_some_iff] at h
+  obtain ⟨bs, hbs, rfl⟩ := h
+  exact ⟨bs, allBounds_pieces_ne_nil _ _ _ hbs, rfl⟩
+
+theorem parseToks_noAdj_aux (toks : List LexTok) :
+    (∀ lit l, parseOutside lit toks = Option.some l → NoAdj l) ∧
+    (∀ body l, parseBody body toks = Option.some l → NoAdj l ∧ ∃ b t, l = BoF.bound b :: t) := by
+  induction toks with
+  | nil =>
+    constructor
+    · intro lit l h
+      simp only [parseOutside, Option.some.injEq] at h
+      subst h; exact noAdj_fillerOf lit
+    · intro body l h; simp [parseBody] at h
+  | cons tok t ih =>
+    obtain ⟨ihO, ihB⟩ := ih
+    constructor
+    · intro lit l h
+      cases tok with
+      | lbrace2 => exact ihO _ l (by simpa [parseOutside] using h)
+      | rbrace2 => exact ihO _ l (by simpa [parseOutside] using h)
+      | chr c => exact ihO _ l (by simpa [parseOutside] using h)
+      | rbrace => simp [parseOutside] at h
+      | lbrace =>
+        simp only [parseOutside, Option.map_eq_some_iff] at h
+        obtain ⟨rest, hrest, rfl⟩ := h
+        obtain ⟨hna, b, t', rfl⟩ := ihB [] rest hrest
+        exact noAdj_fillerOf_bound lit b t' hna
+    · intro body l h
+      cases tok with
+      | lbrace2 => exact ihB _ l (by simpa [parseBody] using h)
+      | rbrace2 => exact ihB _ l (by simpa [parseBody] using h)
+      | chr c => exact ihB _ l (by simpa [parseBody] using h)
+      | lbrace => simp [parseBody] at h
+      | rbrace =>
+        simp only [parseBody] at h
+        cases hc : specCommaList body with
+        | none => simp [hc] at h
+        | some bl =>
+          cases ho : parseOutside [] t with
+          | none => simp [hc, ho] at h
+          | some rest =>
+            simp only [hc, ho, Option.some.injEq] at h
+            subst h
+            obtain ⟨bs, hne, rfl⟩ := specCommaList_shape body bl hc
+            refine ⟨noAdj_bounds_append bs rest (ihO [] rest ho), ?_⟩
+            cases bs with
+            | nil => exact absurd rfl hne
+            | cons b bt => exact ⟨b, _, rfl⟩
+
+/-- **C18/C04.**  The parser never produces two literal texts in a row (the invariant the
+    chunk-independence proof of C04 needs). -/
+theorem parse_noAdjFillers (s : List Char) (l : List BoF) (h : parseBoundsList s = Option.some l) :
+    NoAdj l := by
+  by_cases hs : s = []
+  · subst hs
+    simp only [parseBoundsList, List.isEmpty_nil, if_true, Option.some.injEq] at h
+    subst h; trivial
+  · rw [parseBoundsList_eq s hs] at h
+    unfold specItems at h
+    by_cases hb : hasBrace s = true
+    · rw [if_pos hb] at h
+      exact (parseToks_noAdj_aux (lex s)).1 [] l h
+    · rw [if_neg hb] at h
+      obtain ⟨bs, _, rfl⟩ := specCommaList_shape s l h
+      simpa using noAdj_bounds_append bs [] trivial
+
+/-! ## examples (model and specification side by side) -/
+
+example : boundsListOfString "1:3,5=x".toList =
+    .ok { list := [.bound { l := .some 1, r := .some 3 },
+                   .bound { l := .some 5, r := .some 5, isLast := true, fallback := Option.some [120] }],
+          lastInteresting := .some 5 } := by decide
+example : specParse "1:3,5=x".toList =
+    Option.some [.bound { l := .some 1, r := .some 3 },
+      .bound { l := .some 5, r := .some 5, isLast := true, fallback := Option.some [120] }] := by decide
+
+example : (boundsListOfString "a{1}b{{".toList).toOption.map (·.list) =
+    Option.some [.filler [97], .bound { l := .some 1, r := .some 1, isLast := true }, .filler [98, 123]] := by
+  decide
+example : specParse "a{1}b{{".toList =
+    Option.some [.filler [97], .bound { l := .some 1, r := .some 1, isLast := true }, .filler [98, 123]] := by
+  decide
+
+example : boundsListOfString "-3:2".toList =
+    .ok { list := [.bound { l := .some (-3), r := .some 2, isLast := true }],
+          lastInteresting := .cont } := by decide
+
+example : boundsListOfString "{1{2}".toList = .fail := by decide
+example : boundsListOfString "=x".toList = .fail := by decide
+example : boundsListOfString ":=x".toList = .fail := by decide
+example : boundsListOfString "x{{y".toList = .fail := by decide
+example : boundsListOfString "{1}}}".toList = .fail := by decide
+example : boundsListOfString "0".toList = .fail := by decide
+example : boundsListOfString "3:1".toList = .fail := by decide
+example : boundsListOfString "2147483648".toList = .fail := by decide
+example : boundsListOfString "2147483647".toList ≠ .fail := by decide
+example : boundsListOfString "-2147483648".toList ≠ .fail := by decide
+example : specParse "{1{2}".toList = none := by decide
+example : specParse "=x".toList = none := by decide
+example : specParse ":=x".toList = none := by decide
+example : specParse "x{{y".toList = none := by decide
+example : specParse "{1}}}".toList = none := by decide
+example : specParse "0".toList = none := by decide
+example : specParse "3:1".toList = none := by decide
+example : specParse "2147483648".toList = none := by decide
 
 end Tuc
